@@ -27,11 +27,25 @@ class C13(ChanSpec):
                   "their own read loop, user handlers that block forever are outside the model.")
     rule = ("per scenario: 1-2 listen ops (Listen + Async) on one thread, 0-2 dials (each waits until its listener accepts; 1/4 followed by a peer hang-up) on another, a Shutdown thread that "
             "1/2 of the time first waits for 1-2 connections, plus (1/6 each) a Listener.Close before Shutdown, a Listener.Close racing it from its own thread, or Close / re-Listen of the "
-            "same url / Close of the old listener again; 1/5 a Listen+Async after Shutdown; random schedules with stickiness 0/50/80/95 and DFS with 2-3 preemptions")
+            "same url / Close of the old listener again; 1/5 a Listen+Async after Shutdown; random schedules with stickiness 0/50/80/95 and DFS with 2-3 preemptions; plus 8 (thorough 150) runs over the real TCP factory on the loopback interface: 0-3 client "
+            "connections, Shutdown right after Async or once the connections are active; observed: Sync's error, every client sees its connection closed, a new dial is refused, inactive = active")
     assumptions = ("the executor runs every submitted action eventually", "Accept returns an error exactly when the acceptor has been closed")
     modelled_not_verified = ("sync.Map", "sync.Mutex", "context.WithCancel", "transport/tcp acceptor (mock)", "Executor")
 
+    def harness(self, seed, count, tier):
+        lines = super().harness(seed, count, tier)
+        rc, so, se = core.run([os.path.join(core.BIN, "nvh"), "-prop", "C13", "-seed", str(seed), "-count", str(8 if tier == "quick" else 150)], timeout=1800)
+        lines += [l for l in so.split("\n") if l]
+        if rc != 0:
+            lines.append("C13 crash harness-exit-%d %s" % (rc, se[-200:].replace("\n", " ")))
+        return lines
+
+    def nontrivial(self, line, answer):
+        return line.split()[1] in ("end", "tcp")
+
     def extra_coverage(self, pairs):
+        tcp = collections.Counter(" ".join(l.split()[2:4]) for l, a in pairs if l.split()[1] == "tcp")
+        pairs = [(l, a) for l, a in pairs if l.split()[1] != "tcp"]
         execs = sum(1 for l, a in pairs if l.split()[1] == "end")
         steps = sum(1 for l, a in pairs if l.split()[1] == "step")
         ends = collections.Counter(" ".join(a.split()[1:]) for l, a in pairs if l.split()[1] == "end")
@@ -45,7 +59,7 @@ class C13(ChanSpec):
             if l.split()[1] == "end":
                 traces.add(hash("\n".join(cur)))
         return dict(traces_validated_against_impl=execs, distinct_traces=len(traces), steps=steps,
-                    input_distribution=dict(ops=dict(ops), endings=dict(ends.most_common(12)), labels_hit=len(labels),
+                    input_distribution=dict(tcp_runs=dict(tcp), ops=dict(ops), endings=dict(ends.most_common(12)), labels_hit=len(labels),
                                             rare_labels={k: v for k, v in labels.items() if v < 50}))
 
 
